@@ -27,14 +27,14 @@ func (a *VC) join(b *VC) {
 }
 
 type thread struct {
-	id      int
-	wake    chan struct{}
-	done    bool
-	started bool
-	blocked func() bool // non-nil: not enabled while it returns true
-	vc      VC
-	body    func()
-	steps   int
+	id       int
+	wake     chan struct{}
+	done     bool
+	started  bool
+	blocked  func() bool // non-nil: not enabled while it returns true
+	vc       VC
+	body     func()
+	steps    int
 	lastRead string // variable of the immediately preceding visible op if it was a read
 }
 
